@@ -412,11 +412,18 @@ pub fn generate_exhaustive(_ctx: &mut Ctx, kind: &str, maxlen: usize, i: usize) 
     let mut lines = vec![];
     for _ in 0..len { lines.push(sp.alphabet[s % k]); s /= k; }
     let tag = format!("<block{}>", cfg.iter().map(|(k, v)| format!(" {k}={}", quote(v))).collect::<String>());
-    // three layouts in turn: `#` comments, `//` comments, block comments (content may start on the tag's line)
-    let (path, open, close) = if inline_first { ("f.c", "/* ", " */") } else { [("f.py", "# ", ""), ("f.rs", "// ", ""), ("f.c", "/* ", " */")][i % 3] };
+    // where the content sits relative to the tag comments, in turn over the line sequences (every configuration meets every
+    // layout on a quarter of the sequences): 0 tags on lines of their own, 1 content begins on the start tag's line,
+    // 2 the last content line ends on the end tag's line, 3 both (a whole block on one line when it has one line)
+    let layout = if inline_first { 1 } else { (i / sp.configs.len() / sp.inline_variants) % 4 };
+    // three comment styles in turn: `#` comments, `//` comments, block comments (layouts 1-3 need block comments)
+    let (path, open, close) = if layout != 0 { ("f.c", "/* ", " */") } else { [("f.py", "# ", ""), ("f.rs", "// ", ""), ("f.c", "/* ", " */")][i % 3] };
     let mut src = format!("{open}{tag}{close}");
-    src += if inline_first && !lines.is_empty() { " " } else { "\n" };
-    for l in &lines { src += l; src += "\n"; }
+    src += if (layout == 1 || layout == 3) && !lines.is_empty() { " " } else { "\n" };
+    for (k, l) in lines.iter().enumerate() {
+        src += l;
+        src += if (layout == 2 || layout == 3) && k + 1 == lines.len() { " " } else { "\n" };
+    }
     src += &format!("{open}</block>{close}\n");
     Case {
         files: vec![(path.to_string(), Some(src))],
